@@ -496,11 +496,17 @@ namespace hgraph
                                 TSDDataMutationView *error_mutation,
                                 DateTime evaluation_time)
         {
+            // Every entry gets its removal (and so its child graph its stop) even
+            // when an earlier child's stop throws; the first failure is rethrown.
+            FirstExceptionRecorder exceptions;
             for (std::size_t slot = 0; slot < storage.entries.slot_capacity(); ++slot)
             {
-                remove_entry_at_slot(view, context, storage, output_mutation, error_mutation,
-                                     slot, evaluation_time);
+                exceptions.capture([&] {
+                    remove_entry_at_slot(view, context, storage, output_mutation, error_mutation,
+                                         slot, evaluation_time);
+                });
             }
+            exceptions.rethrow_if_any();
         }
 
         void create_entry_at_slot(const NodeView &view, const MapNodeContext &context, MapNodeStorage &storage,
